@@ -30,6 +30,22 @@ CHECKS = {
    technique="interval-bracketed expiry oracle over recorded callbacks with real sleeps and monotonic call brackets; Close/Maintain-after-Close/nil-stream return-value checks",
    text="Each eviction decision is classified from the monotonic brackets of the creating call and the deciding call: certainly expired (must be delivered by this Maintain/PushMessage once it is the oldest), certainly fresh (must not be delivered on account of time), or uncertain (either accepted, counted separately). Close must flush everything once, in order, with loss accounting; later Maintain/Close must fail and deliver nothing; a nil Stream must be refused. The oracle is sound under arbitrary scheduling delay, so load cannot cause a false alarm.",
    note="Trusted base: harness oracle, process-wide monotonic clock shared by harness and library. Decisions inside the uncertainty interval are not decided. Timeouts -1s, 0, 2/5/20 ms, 1h only."),
+ "C11": dict(engine="sched", cat="exploration", ref="§5 C11",
+   technique="systematic schedule enumeration with a controlled scheduler on verif yield hooks (stateless DFS, exactly-once / one-Close / deadlock oracle per schedule) + randomised multi-goroutine stress under the Go race detector",
+   text="Every interleaving (at the granularity of the Reassembler's atomic steps) of all 625 two-goroutine x two-op programs, of re-entrant-callback variants, and preemption-bounded 3-goroutine programs is executed and checked: no message twice, single-sequence groups, exactly one Close succeeds, every message whose push returned before Close was invoked delivered exactly once, no self-deadlock (decided from a goroutine dump). Data races are decided separately by the race detector over stress runs whose hook only injects Gosched/spins (no synchronisation that could hide a race).",
+   note="Trusted base: scheduler + oracle in /verif/harness/internal/sched, Go race detector. Interleavings inside a locked region are reached only by the stress phase; larger programs are sampled, not enumerated."),
+ "C04": dict(engine="logenc", cat="exploration", ref="§5 C04",
+   technique="header round-trip oracle + closed must-error corruption list over generated log lines for all 65536 type codes",
+   text="For generated lines covering every type code, boundary and random seconds/milliseconds/sequence numbers and hostile bodies, RecordType/Timestamp(UTC)/Sequence/RawData must equal what was written, ParseLogLine and Parse must agree (fields and Data()), ToMapStr's well-known keys must come from the header; each single corruption from a closed list must yield (nil, error).",
+   note="Trusted base: the harness's line writer and comparison code; type names come from the library's own String() (consistency of that table is C20)."),
+ "C05": dict(engine="logenc", cat="exploration", ref="§5 C05",
+   technique="panic / hang / idempotence monitors over mutation-based and random inputs through every enrichment path",
+   text="Hundreds of thousands (quick) to tens of millions (thorough) of mutated real records and random byte strings are parsed as log lines and as raw messages under every record type with its own enrichment path; any panic (recovered and attributed to the input), any call exceeding the hang bound, any difference between two Data/Tags/ToMapStr calls or between Data()'s error and ToMapStr()[\"error\"] is a violation. Fatal runtime errors are attributed through in-flight slots.",
+   note="Trusted base: harness mutators and monitors. Totality over all strings cannot be exhausted; the evidence reports how many inputs reached the enrichment code."),
+ "C12": dict(engine="logenc", cat="exploration", ref="§5 C12",
+   technique="round-trip oracle against an independent kernel-style record writer (untrusted-string/hex/sockaddr encoders) + exhaustive errno and (arch, syscall) table sweep",
+   text="Byte-string values are written the way the kernel writes them into 12 record positions and Data() must return the original bytes (NULs as spaces where the statement says so), drop only the four placeholders, and keep neighbours; generated IPv4/IPv6/unix socket addresses must decode to the same family/address/port/path; every errno and every (arch, syscall number) of the published tables, the result and unset rules are checked exhaustively.",
+   note="Trusted base: the harness's re-implementation of audit_log_untrustedstring/audit_log_n_hex and struct sockaddr layouts (little-endian host). One known finding (single quote inside a nested msg='...' value)."),
 }
 
 NOT_YET = {
@@ -66,6 +82,10 @@ def main():
             "add_only": True,
         },
         "engines": [
+            {"name": "sched", "path": "/verif/harness/internal/sched", "serves_properties": ["C11"],
+             "kind_free_text": "controlled scheduler over the verif yield hook (stateless DFS) + race-detector stress workload"},
+            {"name": "logenc", "path": "/verif/harness/internal/logenc", "serves_properties": ["C04","C05","C12","C09","C15"],
+             "kind_free_text": "real-record corpus, hostile mutators, kernel-style record writer"},
             {"name": "reasm", "path": "/verif/harness/internal/reasm", "serves_properties": ["C01","C02","C03","C10","C19"],
              "kind_free_text": "history generator + recording Stream + trace oracles over the real Reassembler"},
         ],
